@@ -56,6 +56,18 @@ CHECKS = {
         note='Six templates (every block tag, sort_expr / reverse_expr, batches, shared sub-template, restricted expressions, %()s) with '
              'per-thread namespaces; threads are serialised at source-line granularity by the scheduler (the property\'s granularity).',
         ref='DESIGN.md section 4 C18'),
+    'C05': dict(engine='DTGuard',
+        technique='TLA+ machine of guard mediation (DTGuard: guard asked / answered / value read) validating the trace of every '
+                  'rendering recorded with a recording guard and logging client objects; two-run non-interference per channel',
+        text='Every access channel of the language (name lookup in client / client tuple / with / with only / let / if / expression, '
+             'o.a, o[i], _.getattr / _.hasattr, elements iterated by dtml-in with and without skip_unauthorized and batches, per-item '
+             'variables, statistics, sort keys, fmt=method, url, sub-templates, dtml-tree branches) x {public, underscore-private, '
+             'guard-denied} x nine enclosing contexts (with only, let, in, try, sub-template ...) and every subset of refused elements '
+             'is rendered with a recording guard; TLC replays each trace (mediated / released / unmediated reads, table Expect, '
+             'ShownOnlyIfReleased, ItemsOK); a flow is reported only when two runs differing in the refused values differ or show a marker.',
+        note='Known finding F9 (per-item variables, statistics, sort keys, url read raw); _.getattr / _.hasattr and o[i] inside '
+             'expressions are mediated by AccessControl\'s own guards in this environment, only the flow test applies there.',
+        ref='DESIGN.md section 4 C05'),
     'C11': dict(
         engine='DTBatch',
         technique='TLA+ model (DTBatch) checked by TLC; exported behaviours replayed into dtml-in; '
